@@ -505,6 +505,97 @@ func c09TagScenario(n int, dotu bool, P int) Scenario {
 	return vsScenario(&VsSpec{Name: fmt.Sprintf("tag-pipeline n=%d dotu=%v", n, dotu), Body: body, Check: check, P: P, Delay: true, Sample: func() any { return map[string]any{"completions": got} }})
 }
 
+// c09TagInterleaved: requests pipelined on two Tags of one client, in every pattern of
+// four requests over the two, answered by the server in every order that keeps each
+// tag's own requests first-in first-out (a server may answer different tags in any
+// order). Every completion pairs a request with the reply the server sent for it.
+func c09TagInterleaved(dotu bool) Scenario {
+	name := fmt.Sprintf("two Tags interleaved, every pattern of 4 requests x every legal answer order dotu=%v", dotu)
+	return Scenario{Name: name, Run: func(rc *RunCtx) *Result {
+		res := &Result{Exhaustive: true}
+		var bad string
+		for pat := 0; pat < 16 && bad == ""; pat++ {
+			for _, order := range perms([]int{0, 1, 2, 3}) {
+				// keep each tag's requests in order
+				legal := true
+				pos := map[int]int{}
+				for at, idx := range order {
+					pos[idx] = at
+				}
+				for i := 0; i < 4; i++ {
+					for j := i + 1; j < 4; j++ {
+						if (pat>>i)&1 == (pat>>j)&1 && pos[i] > pos[j] {
+							legal = false
+						}
+					}
+				}
+				if !legal {
+					continue
+				}
+				pat, order := pat, order
+				var got []string
+				body := func() {
+					c, peer := newClientPair(8192, dotu)
+					peer.Batch = 4
+					peer.Order = order
+					chs := []chan *go9p.Req{make(chan *go9p.Req, 8), make(chan *go9p.Req, 8)}
+					tags := []*go9p.Tag{c.TagAlloc(chs[0]), c.TagAlloc(chs[1])}
+					for i := 0; i < 4; i++ {
+						f := mkFid(c, uint32(40+i))
+						if err := tags[(pat>>i)&1].Read(f, uint64(i), 8); err != nil {
+							vs.Fail("Tag.Read: %v", err)
+						}
+					}
+					vs.Idle()
+					for t := 0; t < 2; t++ {
+						cnt := 0
+						for i := 0; i < 4; i++ {
+							if (pat>>i)&1 == t {
+								cnt++
+							}
+						}
+						for ; cnt > 0; cnt-- {
+							r := vs.Recv(chs[t])
+							if r.Rc == nil {
+								got = append(got, fmt.Sprintf("fid%d: no reply (%v)", r.Tc.Fid, r.Err))
+							} else if want := peerReadData(r.Tc.Fid, r.Tc.Offset, 8); !bytes.Equal(r.Rc.Data, want) {
+								got = append(got, fmt.Sprintf("the read of fid %d at %d completed with %x, the server's reply to it carries %x", r.Tc.Fid, r.Tc.Offset, r.Rc.Data, want))
+							} else {
+								got = append(got, "ok")
+							}
+						}
+					}
+				}
+				x := vs.Run(nil, body, vs.Options{Horizon: 10000000})
+				res.Evals++
+				res.Nontrivial++
+				res.States++
+				res.Traces++
+				if len(x.Panics) > 0 {
+					bad = "panic: " + x.Panics[0].Value
+				} else if len(x.Fails) > 0 {
+					bad = "harness: " + x.Fails[0]
+				} else if len(got) != 4 {
+					bad = fmt.Sprintf("%d of 4 pipelined requests completed (pattern %04b, answer order %v): %v", len(got), pat, order, got)
+				} else {
+					for _, g := range got {
+						if g != "ok" {
+							bad = fmt.Sprintf("requests issued on Tags in pattern %04b (bit i = Tag of request i), answered in order %v: %s", pat, order, g)
+						}
+					}
+				}
+				if bad != "" {
+					break
+				}
+			}
+		}
+		if bad != "" {
+			res.Findings = append(res.Findings, Finding{Sig: "C09/tags-interleaved/" + sigWords(bad), Msg: bad})
+		}
+		return res
+	}}
+}
+
 // many sequential calls over one connection: tags and request slots are recycled
 func c09RecycleScenario(n int, poolForgets bool, kind string) Scenario {
 	name := fmt.Sprintf("recycle %d sequential calls", n)
@@ -753,6 +844,7 @@ func c09Scenarios(tier string) []Scenario {
 			out = append(out, c09Scenario(c09Params{Calls: [][]callSpec{{{"read", 10}}, {{"stat", 20}}, {{"read", 30}}, {{"write", 40}}, {{"walk", 50}}}, Order: order, Dotu: true, P: 0}))
 		}
 	}
+	out = append(out, c09TagInterleaved(false), c09TagInterleaved(true))
 	out = append(out, c09TagScenario(2, true, P), c09TagScenario(3, false, 2))
 	// more completions than the Tag's channels hold (16 + the consumer's 8): the reader has to wait for the late consumer
 	out = append(out, c09TagScenario(30, true, 1), c09TagScenario(40, false, 1))
